@@ -48,7 +48,7 @@ POOLSIM_ESSENTIAL = {
     "C02": ["C02.least-loaded-multi", "C02.at-max", "C02.count", "C02.quiescent-zero", "C02.empty-snap", "C02.empty-reply-key"],
     "C03": ["C03.initial", "C03.growth-attempt", "C03.growth-blocked-by-connecting", "C03.max", "C02.at-max", "C03.filled-to-high-watermark"],
     "C04": ["C04.aggregate", "C04.publish", "C04.publish-tf-boundary", "C04.ignored-report", "C04.tf-picker"],
-    "C05": ["C05.hostile-case", "C05.malformed-handled"],
+    "C05": ["C05.hostile-case", "C05.malformed-handled", "C05.before-config"],
     "C06": ["C06.lock-free-after-op", "C06.hard-state", "C09.rr-wait", "C08.place-saturated", "C06.waiter-parked"],
     "C07": ["C07.rule", "C07.rule-refresh", "C07.swap", "C07.window-boundary", "C07.window-doubled",
             "C07.started-before-last-response", "C07.disabled", "C07.extreme-window", "C07.saturated-window"],
@@ -114,7 +114,7 @@ PROPS["C11"] = dict(level="exploration",
     assumptions=["the reference traversal is written from the statement over the generator's own value tree (not reflect)",
                  "shapes the statement does not define (pointer-to-pointer, interface holding a pointer, maps, arrays, repeated-of-repeated, promoted fields of embedded structs, non-identifier segments) are checked for totality only"],
     stages=[dict(name="keys", engine="keys", test="TestVerifKeys", batches=dict(quick=8, thorough=16),
-                 essential={"C11": ["C11.total", "C11.exact-keys", "C11.fan-out", "C11.empty-repeated", "C11.error-expected", "C11.ambiguous-shape-total", "C11.proto-message", "C11.same-name-types", "C11.named-kinds"]},
+                 essential={"C11": ["C11.total", "C11.exact-keys", "C11.fan-out", "C11.empty-repeated", "C11.error-expected", "C11.ambiguous-shape-total", "C11.proto-message", "C11.same-name-types", "C11.named-kinds", "C11.repeated-call", "C11.same-object-after-change", "C11.bytes-field-never-a-key"]},
                  timeout=dict(quick=900, thorough=7200))])
 
 PROPS["C18"] = dict(level="exploration",
@@ -140,7 +140,7 @@ PROPS["C17"] = dict(level="exploration",
                  "GCPMultiEndpoint pools are dialled with a dialer that always fails (no network is needed for the configuration checks)"],
     stages=[dict(name="cfg", engine="cfg", test="TestVerifCfg", batches=dict(quick=8, thorough=16),
                  essential={"C17": ["C17.parse-accept", "C17.parse-reject", "C17.round-trip", "C17.initial-size", "C17.second-update", "C17.caller-mutates", "C17.caller-object-unchanged",
-                                    "C17.effective-config-wb", "C17.method-mapping", "C17.method-key-path", "C17.method-bind", "C17.watermark", "C17.max-size", "C17.gme-config-copy", "C17.gme-update", "C17.update-on-emptied-pool", "C17.edge-values"]},
+                                    "C17.effective-config-wb", "C17.method-mapping", "C17.method-key-path", "C17.method-bind", "C17.watermark", "C17.max-size", "C17.gme-config-copy", "C17.gme-update", "C17.update-on-emptied-pool", "C17.edge-values", "C17.method-name-with-whitespace"]},
                  timeout=dict(quick=900, thorough=7200))])
 
 PROPS["C12"] = dict(level="exploration",
@@ -166,7 +166,7 @@ PROPS["C16"] = dict(level="fault_enumeration",
     rule="enumerated fault kinds {default missing, empty list for an existing ME, empty list for a new ME, dial failure at the 1st/2nd/3rd dial, valid} applied in seeded sequences of 1-4 updates on top of random legitimate changes (Go map order varies per repetition), and failed constructions {dial failure at dial 1/2, default missing, empty list}; non-trivial = every case (each ends with Close() and the leak check); distinct = hash of the op log incl. the dial order actually taken",
     assumptions=GME_ASSUME + ["client-side goroutines are recognised by frames of monitoredConn.monitor, grpc.addrConn/ClientConn/ccBalancerWrapper/ccResolverWrapper, transport.http2Client"],
     stages=[dict(name="gme", engine="gme", test="TestVerifGME", batches=dict(quick=8, thorough=16), crash_props=["C15", "C16"],
-                 essential={"C16": ["C16.rejected", "C16.routing-unchanged", "C16.update:default-missing", "C16.update:default-removed", "C16.invalid-update-drops-me", "C16.update:existing-empty", "C16.update:new-empty", "C16.update:dial-fail", "C16.failed-construction", "C16.close", "C16.no-goroutine-left", "C16.accepted-update", "C16.redial-after-rollback", "C16.delayed-switch-target-removed", "C16.owner-closed-conn"]},
+                 essential={"C16": ["C16.rejected", "C16.routing-unchanged", "C16.update:default-missing", "C16.update:default-removed", "C16.update:dup-list", "C16.invalid-update-drops-me", "C16.update:existing-empty", "C16.update:new-empty", "C16.update:dial-fail", "C16.failed-construction", "C16.close", "C16.no-goroutine-left", "C16.accepted-update", "C16.redial-after-rollback", "C16.delayed-switch-target-removed", "C16.owner-closed-conn"]},
                  timeout=dict(quick=1200, thorough=7200))])
 
 PROPS["C10"] = dict(level="exploration",
@@ -198,7 +198,7 @@ PROPS["C02"]["stages"].append(stress_stage({"C02": ["C02.stress-quiescent-zero",
 PROPS["C07"]["stages"].append(stress_stage({"C07": ["C07.stress-one-replacement", "C07.stress-concurrent-timeouts"]}))
 PROPS["C20"]["stages"].append(stress_stage({"C20": ["C20.stress-update-during-refresh-create"]}))
 PROPS["C03"]["stages"].append(stress_stage({"C03": ["C03.stress-max", "C03.slow-factory-grow", "C03.stress-refresh-extra"]}))  # the gate scenario's counter is not essential: after a refactoring its site may not exist (then it is inconclusive)
-PROPS["C09"]["stages"].append(stress_stage({"C09": ["C09.stress-exact", "C09.stress-bind-picks"]}))
+PROPS["C09"]["stages"].append(stress_stage({"C09": ["C09.stress-exact", "C09.stress-bind-picks", "C09.stress-long-wait"]}))
 PROPS["C05"]["stages"].append(dict(name="stream", engine="stream", test="TestVerifStream", batches=dict(quick=8, thorough=16),
                                   essential={"C05": ["C12.not-created-at-construction", "C12.bystander:before-send"]}, timeout=dict(quick=900, thorough=7200)))
 PROPS["C05"]["stages"].append(dict(stress_stage({"C05": ["C05.stress-no-crash", "stress.placed"]}), crash_props=["C05"]))
